@@ -110,6 +110,20 @@ Verdict judge_c03(Plan const& p, History const& h, RunInfoLite const& ri)
     return v;
   }
   Model m = Model::build(p, h);
+  // a blocking queue never discards: a log call that passed the level check returns true (or throws for a record larger
+  // than an unbounded queue's maximum), whatever the state of the queue
+  if (!fo_info(static_cast<int>(p.get("fo", 0))).dropping)
+  {
+    for (auto const& kv : m.issued)
+    {
+      if (kv.second.result == 0)
+      {
+        return violation("statement_discarded_by_a_blocking_queue",
+                         "the log call of id " + std::to_string(kv.first) + " returned false (encoded size " +
+                           std::to_string(encoded_size_of(p, kv.first)) + ")");
+      }
+    }
+  }
   DeliveryRules rules;
   rules.expect = [&m](Issued const& is, int sink) -> int
   {
